@@ -4,9 +4,12 @@ import (
 	"bytes"
 	"fmt"
 	"math/big"
+	"reflect"
 	"sort"
 	"strings"
 	"testing"
+
+	"golang.org/x/crypto/sha3"
 
 	"github.com/icon-project/goloop/common"
 	"github.com/icon-project/goloop/common/db"
@@ -53,11 +56,37 @@ func c14ID(i int) []byte {
 
 func c14Owner(i int) *common.Address { return common.NewAccountAddress(c14ID(i)) }
 
+// c14Contract is one deployed code version of a contract account: code / deploy tx / audit tx are
+// small selectors (the bytes are derived from them), status is "pending", "active" or "rejected".
+type c14Contract struct {
+	code, tx, audit int
+	status          string
+}
+
+func (c *c14Contract) String() string {
+	if c == nil {
+		return "-"
+	}
+	return fmt.Sprintf("code%d/tx%d/audit%d/%s", c.code, c.tx, c.audit, c.status)
+}
+
 type c14Acct struct {
 	balance  *big.Int
 	store    map[string][]byte
 	contract bool
 	owner    int
+	// contract accounts only
+	disabled, blocked bool
+	cur, next         *c14Contract
+}
+
+func c14Code(sel int) []byte   { return bytes.Repeat([]byte{byte(0xc0 + sel)}, 40+sel) }
+func c14TxHash(sel int) []byte { return bytes.Repeat([]byte{byte(0x70 + sel)}, 32) }
+func c14Audit(sel int) []byte {
+	if sel == 0 {
+		return nil
+	}
+	return bytes.Repeat([]byte{byte(0xa0 + sel)}, 32)
 }
 
 func (a *c14Acct) empty() bool {
@@ -78,7 +107,16 @@ func (m c14Model) get(i int) *c14Acct {
 func (m c14Model) clone() c14Model {
 	o := c14Model{}
 	for i, a := range m {
-		c := &c14Acct{balance: new(big.Int).Set(a.balance), store: map[string][]byte{}, contract: a.contract, owner: a.owner}
+		c := &c14Acct{balance: new(big.Int).Set(a.balance), store: map[string][]byte{}, contract: a.contract, owner: a.owner,
+			disabled: a.disabled, blocked: a.blocked}
+		if a.cur != nil {
+			cc := *a.cur
+			c.cur = &cc
+		}
+		if a.next != nil {
+			cc := *a.next
+			c.next = &cc
+		}
 		for k, v := range a.store {
 			c.store[k] = append([]byte{}, v...)
 		}
@@ -97,7 +135,7 @@ func (m c14Model) fingerprint() string {
 		}
 		fmt.Fprintf(&sb, "%d:{bal=%s", i, a.balance.Text(16))
 		if a.contract {
-			fmt.Fprintf(&sb, " contract(owner=%d)", a.owner)
+			fmt.Fprintf(&sb, " contract(owner=%d disabled=%v blocked=%v cur=%s next=%s)", a.owner, a.disabled, a.blocked, a.cur, a.next)
 		}
 		keys := make([]string, 0, len(a.store))
 		for k := range a.store {
@@ -123,6 +161,28 @@ func c14Build(m c14Model) state.WorldState {
 		as := ws.GetAccountState(c14ID(i))
 		if a.contract {
 			as.InitContractAccount(c14Owner(a.owner))
+			// the shortest way to the same contract state: deploy+accept the current code, deploy the next
+			// one, reject it if it is rejected
+			if a.cur != nil {
+				if _, err := as.DeployContract(c14Code(a.cur.code), state.JavaEE, "application/java", []byte{byte(a.cur.code)}, c14TxHash(a.cur.tx)); err != nil {
+					panic(err)
+				}
+				if err := as.AcceptContract(c14TxHash(a.cur.tx), c14Audit(a.cur.audit)); err != nil {
+					panic(err)
+				}
+			}
+			if a.next != nil {
+				if _, err := as.DeployContract(c14Code(a.next.code), state.JavaEE, "application/java", []byte{byte(a.next.code)}, c14TxHash(a.next.tx)); err != nil {
+					panic(err)
+				}
+				if a.next.status == "rejected" {
+					if err := as.RejectContract(c14TxHash(a.next.tx), c14Audit(a.next.audit)); err != nil {
+						panic(err)
+					}
+				}
+			}
+			as.SetDisable(a.disabled)
+			as.SetBlock(a.blocked)
 		}
 		as.SetBalance(new(big.Int).Set(a.balance))
 		keys := make([]string, 0, len(a.store))
@@ -180,6 +240,25 @@ func c14CheckData(acc state.AccountData, i int, a *c14Acct, isSnapshot bool) str
 		if o := acc.ContractOwner(); o == nil || !o.Equal(c14Owner(want.owner)) {
 			return fmt.Sprintf("account %d contract owner %v, model owner %d (%s)", i, o, want.owner, c14Owner(want.owner))
 		}
+		if acc.IsDisabled() != want.disabled || acc.IsBlocked() != want.blocked {
+			return fmt.Sprintf("account %d disabled=%v blocked=%v, model disabled=%v blocked=%v", i, acc.IsDisabled(), acc.IsBlocked(), want.disabled, want.blocked)
+		}
+		var gotCur, gotNext state.ContractSnapshot
+		switch x := acc.(type) {
+		case state.AccountSnapshot:
+			gotCur, gotNext = x.Contract(), x.NextContract()
+		case state.AccountState:
+			gotCur, gotNext = x.Contract(), x.NextContract()
+		}
+		for _, x := range []struct {
+			name string
+			got  state.ContractSnapshot
+			want *c14Contract
+		}{{"current contract", gotCur, want.cur}, {"next contract", gotNext, want.next}} {
+			if msg := c14CheckContract(x.got, x.want); msg != "" {
+				return fmt.Sprintf("account %d %s: %s (model %s)", i, x.name, msg, x.want)
+			}
+		}
 	}
 	for _, k := range c14Keys {
 		v, err := acc.GetValue(k)
@@ -192,6 +271,33 @@ func c14CheckData(acc state.AccountData, i int, a *c14Acct, isSnapshot bool) str
 	}
 	if isSnapshot && acc.IsEmpty() != want.empty() {
 		return fmt.Sprintf("account %d IsEmpty=%v, model %v", i, acc.IsEmpty(), want.empty())
+	}
+	return ""
+}
+
+func c14CheckContract(got state.ContractSnapshot, want *c14Contract) string {
+	// (a nil interface and a typed nil pointer both mean "none")
+	none := got == nil || reflect.ValueOf(got).IsNil()
+	if want == nil {
+		if !none {
+			return fmt.Sprintf("present (status %v, deploy tx %x)", got.Status(), got.DeployTxHash())
+		}
+		return ""
+	}
+	if none {
+		return "absent"
+	}
+	ch := sha3.Sum256(c14Code(want.code))
+	st := map[string]state.ContractStatus{"pending": state.CSPending, "active": state.CSActive, "rejected": state.CSRejected}[want.status]
+	switch {
+	case !bytes.Equal(got.CodeHash(), ch[:]):
+		return fmt.Sprintf("code hash %x", got.CodeHash())
+	case !bytes.Equal(got.DeployTxHash(), c14TxHash(want.tx)):
+		return fmt.Sprintf("deploy tx %x", got.DeployTxHash())
+	case !bytes.Equal(got.AuditTxHash(), c14Audit(want.audit)):
+		return fmt.Sprintf("audit tx %x", got.AuditTxHash())
+	case got.Status() != st:
+		return fmt.Sprintf("status %v", got.Status())
 	}
 	return ""
 }
@@ -245,7 +351,7 @@ type c14Snap struct {
 }
 
 var c14OpKinds = []string{"balance", "set", "snapshot", "delete", "reset", "set", "clearcache", "balance", "reload",
-	"contract", "zero", "read", "snapshot", "wipe", "set", "reset"}
+	"contract", "zero", "read", "snapshot", "wipe", "set", "reset", "deploy", "accept", "reject", "flags", "contract"}
 
 var c14Balances = []string{"0", "1", "ff", "100", "de0b6b3a7640000", "ffffffffffffffffffffffffffffffffffffffffffffffffffffffffffffffff"}
 
@@ -365,6 +471,67 @@ func c14Case(rt *rapid.T, rec *ev.Rec) {
 			if ok {
 				a.contract, a.owner = true, owner
 			}
+		case "deploy", "accept", "reject", "flags":
+			// contract life cycle; the verdict of each call (error or not) is taken from goloop, the resulting
+			// state must then be what that call is defined to leave behind - in the live state, in every later
+			// snapshot, after Reset and in the canonical hash
+			var cands []int
+			for i := 0; i < c14Accounts; i++ {
+				if live[i] != nil && live[i].contract {
+					cands = append(cands, i)
+				}
+			}
+			if len(cands) == 0 {
+				hist = append(hist, "noop")
+				break
+			}
+			acct = rapid.SampledFrom(cands).Draw(rt, "contractAcct")
+			a := live.get(acct)
+			as := ws.GetAccountState(c14ID(acct))
+			labels["contract-lifecycle"] = true
+			switch kind {
+			case "deploy":
+				code, tx := rapid.IntRange(0, 2).Draw(rt, "code"), rapid.IntRange(0, 3).Draw(rt, "deployTx")
+				_, err := as.DeployContract(c14Code(code), state.JavaEE, "application/java", []byte{byte(code)}, c14TxHash(tx))
+				hist = append(hist, fmt.Sprintf("deploy(%d,code%d,tx%d)=%v", acct, code, tx, err != nil))
+				if err == nil {
+					a.next = &c14Contract{code: code, tx: tx, status: "pending"}
+				}
+			case "accept":
+				tx, audit := rapid.IntRange(0, 3).Draw(rt, "acceptTx"), rapid.IntRange(0, 2).Draw(rt, "audit")
+				if a.next != nil && rapid.IntRange(0, 2).Draw(rt, "matching") != 0 {
+					tx = a.next.tx
+				}
+				err := as.AcceptContract(c14TxHash(tx), c14Audit(audit))
+				hist = append(hist, fmt.Sprintf("accept(%d,tx%d,audit%d)=%v", acct, tx, audit, err != nil))
+				if err == nil {
+					if a.next == nil {
+						fail(step, "AcceptContract(%d) succeeded without a next contract", acct)
+					}
+					a.cur = &c14Contract{code: a.next.code, tx: a.next.tx, audit: audit, status: "active"}
+					a.next = nil
+					labels["contract-accepted"] = true
+				}
+			case "reject":
+				tx, audit := rapid.IntRange(0, 3).Draw(rt, "rejectTx"), rapid.IntRange(1, 2).Draw(rt, "audit")
+				if a.next != nil && rapid.IntRange(0, 2).Draw(rt, "matching") != 0 {
+					tx = a.next.tx
+				}
+				err := as.RejectContract(c14TxHash(tx), c14Audit(audit))
+				hist = append(hist, fmt.Sprintf("reject(%d,tx%d,audit%d)=%v", acct, tx, audit, err != nil))
+				if err == nil {
+					if a.next == nil {
+						fail(step, "RejectContract(%d) succeeded without a next contract", acct)
+					}
+					a.next.status, a.next.audit = "rejected", audit
+				}
+			default:
+				d, b := rapid.Bool().Draw(rt, "disable"), rapid.Bool().Draw(rt, "block")
+				as.SetDisable(d)
+				as.SetBlock(b)
+				a.disabled, a.blocked = d, b
+				hist = append(hist, fmt.Sprintf("flags(%d,disabled=%v,blocked=%v)", acct, d, b))
+			}
 		case "read":
 			// pure access: changes what is cached / which accounts are loaded
 			if rapid.Bool().Draw(rt, "readState") {
@@ -482,7 +649,7 @@ func hsShortBytes(b []byte) []byte {
 }
 
 func TestC14(t *testing.T) {
-	rec := ev.New("C14", "drawn histories (3..40 ops) over 6 accounts × 7 storage keys on one MapDB: set balance / set, delete storage value / init contract / wipe account / pure reads / "+
+	rec := ev.New("C14", "drawn histories (3..40 ops) over 6 accounts × 7 storage keys on one MapDB: set balance / set, delete storage value / init contract / contract life cycle (deploy, accept, reject with matching or other deploy tx, disable/block flags) / wipe account / pure reads / "+
 		"GetSnapshot (retained with a model copy) / Reset(retained snapshot) / ClearCache / Flush + reload from hash (NewWorldState or NewWorldSnapshot+WorldStateFromSnapshot); "+
 		"after every op all retained snapshots, the live state and the canonical hash are checked; "+
 		"non-trivial = at least one retained snapshot differed from the live contents and afterwards a Reset that undoes changes, a ClearCache, a reload or another snapshot happened; distinct by history")
